@@ -48,6 +48,8 @@ NP_FIRST_ARG_WRITERS = {"copyto", "put", "place", "putmask", "put_along_axis", "
 def reads_only(c):
     """a call that is known not to change any object it is handed or called on"""
     fn = call_name(c) or ""
+    if fn.startswith(("np.ndarray.", "numpy.ndarray.")) and fn.split(".")[-1] not in PURE_METHODS:
+        return False        # np.ndarray.fill(x, 0): the unbound method of the array type
     if isinstance(c.func, ast.Name):
         return c.func.id in PURE_FUNCS
     tail = _np_tail(fn)
@@ -290,6 +292,9 @@ def roots2(e, al=None, local_callables=(), on_call=None, holds=None):
             # arithmetic on arrays / numbers gives a new object; `[x] * 1`, `[] + [x]`, `box + [x]` give a container of the same items
             if isinstance(x.op, (ast.Add, ast.Mult)) and any(isinstance(o, (ast.List, ast.Tuple, ast.Set, ast.Dict, ast.ListComp)) for o in (x.left, x.right)):
                 return set(), both(join([r(x.left), r(x.right)]))
+            if isinstance(x.op, (ast.Add, ast.Sub)) and any(isinstance(y, ast.UnaryOp) and isinstance(y.op, ast.UAdd) and isinstance(y.operand, ast.Name)
+                                                             for o in (x.left, x.right) for y in ast.walk(o)):
+                return elem(join([r(x.left), r(x.right)]))               # lowered Cython `&x + k`: pointer arithmetic stays inside x
             if isinstance(x.op, (ast.Add, ast.Mult)):
                 return set(), join([r(x.left), r(x.right)])[1]           # `box * 1`, `box + box`: a new list of the same items
             return set(), set()
